@@ -112,6 +112,14 @@ def _replay_nearest(rows):
           n += 4
           if not okd:
               bad.append({"kind": "decoupled", "X": X})
+          # end-relative (negative) objective indices select the same components as numpy does on the full evaluation
+          kn = [-1 if i % 2 else -2 for i in range(len(Q))]
+          km = [(-1, 0, 1, -2)[i % 4] for i in range(len(Q))]
+          okn = (np.array_equal(dec.evaluate(Q, kn, noisy=False), v[np.arange(len(Q)), kn]) and np.array_equal(dec.evaluate(Q, km, noisy=False), v[np.arange(len(Q)), km])
+                 and np.array_equal(dec.evaluate(Q, -1, noisy=False), v[:, -1]))
+          n += 3
+          if not okn:
+              bad.append({"kind": "decoupled-negative-index", "X": X})
           try:
               dec.evaluate(Q, ks[:-1], noisy=False)
               bad.append({"kind": "decoupled-length-accepted", "X": X})
